@@ -145,7 +145,7 @@ package dtlshandshake
 // Post-handshake flights (KeyUpdate, NewSessionTicket): same backoff law on each timer expiry.
 
 //@ func postHandshake.retransmitPostHandshakeFlight
-//@ watch Conn.WritePackets
+//@ watch Conn.WritePackets Time.Add
 //@ requires args: p != nil && flight != nil && ownConn(conn) && !isNil(ctx)
 //@ requires interval-range: ivOK(flight.RetransmitInterval)
 //@ ensures sends-once: ncalls("Conn.WritePackets") == 1
@@ -153,4 +153,11 @@ package dtlshandshake
 //@ ensures backoff-off: result == nil && disableRetransmitBackoff ==> flight.RetransmitInterval == old(flight.RetransmitInterval)
 //@ ensures cap-60s: result == nil && !disableRetransmitBackoff ==> flight.RetransmitInterval <= 60000000000 && flight.RetransmitInterval > 0
 //@ ensures failed-write-keeps-interval: result != nil ==> flight.RetransmitInterval == old(flight.RetransmitInterval)
+// The next deadline is "now + the (doubled, capped) interval": time.Time is opaque, so the law is stated on the one
+// time.Time.Add call whose result is stored as the deadline.
+//@ ensures deadline-computed-once: result == nil ==> ncalls("Time.Add") == 1
+//@ ensures deadline-uses-backed-off-interval: result == nil ==> argAs("Time.Add", 1, flight.RetransmitInterval) == flight.RetransmitInterval
+//@ ensures deadline-from-now: result == nil ==> argAs("Time.Add", 0, now) == now
+//@ ensures deadline-stored: result == nil ==> flight.NextRetransmit == retAs("Time.Add", 0, now)
+//@ ensures failed-write-keeps-deadline: result != nil ==> flight.NextRetransmit == old(flight.NextRetransmit) && !called("Time.Add")
 //@ end
